@@ -203,28 +203,29 @@ def stripLeadingZerosViaInt (s : Str) : Str :=
   | some i => intToStr i
   | none => s
 
-/-- `unpack_twprge(mo, default_ns, default_ew, ocr_scrub)`; the defaults are already resolved
-    against MasterConfig by the caller (`resolveDefault`). -/
-def unpackTwprge (p : Pat) (mo : Match) (text : Str) (defNS defEW : Str) (ocr : Bool) : Except PyErr Str := do
-  if !isLegal Gen.LEGAL_NS defNS then throw .defaultNS
-  if !isLegal Gen.LEGAL_EW defEW then throw .defaultEW
+def twpPart (p : Pat) (mo : Match) (text : Str) (ocr : Bool) : Str :=
   let twp0 := (p.group mo text "twpnum").getD []
-  let twp1 := if ocr then ocrScrubAlphaToNum twp0 else twp0
-  let twp := stripLeadingZerosViaInt twp1
-  let ns := match p.group mo text "ns" with
-    | some (c :: _) => [c]
-    | _ => defNS
-  let ns := pyUpper ns
+  stripLeadingZerosViaInt (if ocr then ocrScrubAlphaToNum twp0 else twp0)
+
+def rgePart (p : Pat) (mo : Match) (text : Str) (ocr : Bool) : Str :=
   let rge0 := match p.group mo text "rgenum" with
     | some r => r
     | none => (p.group mo text "rgenum_edgecase_rge2").getD []
-  let rge1 := if ocr then ocrScrubAlphaToNum rge0 else rge0
-  let rge := stripLeadingZerosViaInt rge1
-  let ew := match p.group mo text "ew" with
+  stripLeadingZerosViaInt (if ocr then ocrScrubAlphaToNum rge0 else rge0)
+
+/-- the direction letter: first character of the captured group if it participated, else the default -/
+def dirPart (p : Pat) (mo : Match) (text : Str) (grp : String) (dflt : Str) : Str :=
+  pyUpper (match p.group mo text grp with
     | some (c :: _) => [c]
-    | _ => defEW
-  let ew := pyUpper ew
-  return "T".toList ++ twp ++ ns ++ "-R".toList ++ rge ++ ew
+    | _ => dflt)
+
+/-- `unpack_twprge(mo, default_ns, default_ew, ocr_scrub)`; the defaults are already resolved
+    against MasterConfig by the caller. -/
+def unpackTwprge (p : Pat) (mo : Match) (text : Str) (defNS defEW : Str) (ocr : Bool) : Except PyErr Str :=
+  if !isLegal Gen.LEGAL_NS defNS then .error .defaultNS
+  else if !isLegal Gen.LEGAL_EW defEW then .error .defaultEW
+  else .ok ("T".toList ++ twpPart p mo text ocr ++ dirPart p mo text "ns" defNS ++ "-R".toList
+            ++ rgePart p mo text ocr ++ dirPart p mo text "ew" defEW)
 
 def twprgeNaturalToShort (t : Str) : Str :=
   Gen.inl_unpackers_twprge_natural_to_short_0.sub [] (pyLower t)
